@@ -4,7 +4,7 @@ import ast
 from fractions import Fraction as F
 from math import factorial
 from ..core import expr as X
-from ..core.interp import Interp, FuncRef
+from ..core.interp import Interp, FuncRef, Opaque
 from ..core.report import AnalysisError
 from ..frontend.pyfront import Repo
 
@@ -361,6 +361,8 @@ def entry_point(chk, repo):
         return NotImplemented
 
     def branch_hook(itp, st, v, fr):
+        if isinstance(v, Opaque) and v.name.startswith('tolerance test'):
+            return None     # np.allclose / np.isclose on the caller's data: both outcomes are explored (fork)
         return False        # type()/isinstance() tests against numpy arrays: the scalar path
     it = Interp(repo, hooks={'call': call_hook, 'branch': branch_hook}, max_depth=12)
     M = X.atom('M_host', 'pos'); m = X.atom('m_target', 'pos'); R = X.atom('R', 'pos'); g = X.atom('g', 'pos'); rho = X.atom('rho', 'pos'); C = X.atom('C', 'pos')
@@ -392,8 +394,20 @@ def entry_point(chk, repo):
                     (dict(spin_frequency=spin, obliquity=I_, rheology='cpl', fixed_k2=X.atom('k2_fixed', 'pos'), fixed_q=X.atom('Q', 'pos')), 'CPL, free spin, obliquity'),
                     (dict(spin_frequency=spin, rheology='ctl', fixed_k2=X.atom('k2_fixed', 'pos'), fixed_dt=X.atom('dt', 'pos')), 'CTL, free spin')):
         args = dict(base); args.update(kw)
-        out = it.call(mq, f, [], args)
-        ok = d.equal(out['tidal_heating'], M * (n * out['dUdM'] - spin * out['dUdO']))
-        chk.ob('R10.9', f'quick_tidal_dissipation ({lab}): returned tidal_heating == host_mass (n dUdM - spin dUdO) of the returned potential derivatives', ok,
-               '' if ok else d.describe(out['tidal_heating'], M * (n * out['dUdM'] - spin * out['dUdO'])), where, key=f'R10.9|identity|{lab}', method='whole-function interpretation + GF(p^2) PIT')
+        from ..core.interp import PathExplorer
+
+        def one(fork, args=args):
+            it.hooks['fork'] = fork
+            try:
+                return it.call(mq, f, [], dict(args))
+            finally:
+                it.hooks.pop('fork', None)
+        bad = []
+        for trace, out in PathExplorer(max_paths=16).run(one):
+            if not d.equal(out['tidal_heating'], M * (n * out['dUdM'] - spin * out['dUdO'])):
+                bad.append(d.describe(out['tidal_heating'], M * (n * out['dUdM'] - spin * out['dUdO'])) + PathExplorer.label(trace))
+        ok = not bad
+        chk.ob('R10.9', f'quick_tidal_dissipation ({lab}): returned tidal_heating == host_mass (n dUdM - spin dUdO) of the returned potential derivatives, with the spin rate the caller gave '
+               '(on every outcome of tolerance tests made on the inputs)', ok,
+               '' if ok else bad[0], where, key=f'R10.9|identity|{lab}', method='whole-function interpretation (paths through data-dependent predicates enumerated) + GF(p^2) PIT')
     chk.floor('R10.9', 4)
